@@ -418,14 +418,14 @@ Proof.
   - inv Hnd. inv Hs.
     assert (Hl_r : lookup (r_level r) thr = lookup (r_level r) thr0) by (apply Hl; left; reflexivity).
     destruct (r_level r <? cap)%Z eqn:Ec.
-    + destruct (find_promotable cfg thr r b) as [thr' res] eqn:Ef.
+    + destruct (find_promotable cfg thr r (bres_at b (r_level r))) as [thr' res] eqn:Ef.
       destruct res as [[t pos]|].
       * exists [], r, rest. simpl.
         split; [reflexivity|]. split; [lia|]. split; [reflexivity|]. split; [lia|]. split; [reflexivity|].
         split; [eapply find_promotable_sound; eauto|]. intros r' [].
       * assert (Hl' : forall r2, In r2 rest -> lookup (r_level r2) thr' = lookup (r_level r2) thr0).
         { intros r2 Hin. rewrite <- (Hl r2) by (right; exact Hin).
-          replace thr' with (fst (find_promotable cfg thr r b)) by (rewrite Ef; reflexivity).
+          replace thr' with (fst (find_promotable cfg thr r (bres_at b (r_level r)))) by (rewrite Ef; reflexivity).
           apply find_promotable_frame. intro Heq. apply H1. rewrite <- Heq. apply in_map. exact Hin. }
         specialize (IH (S j) (r_level r) thr' Hl' H2 H4).
         assert (Hr : none_yes cfg thr0 r) by (eapply find_promotable_complete; eauto).
@@ -604,6 +604,37 @@ Proof.
   apply rung_pos_spec in Ep as [k [rg' [Hk [Hn Hl]]]]. simpl in Hk. subst k. congruence.
 Qed.
 
+Lemma update_epsilon_fields rs orc rs2 : update_epsilon rs orc = Ok rs2 ->
+  rs_rungs rs2 = rs_rungs rs /\ rs_running rs2 = rs_running rs /\ rs_thr rs2 = rs_thr rs /\
+  rs_idx rs2 = rs_idx rs /\ rs_cap rs2 = rs_cap rs.
+Proof.
+  unfold update_epsilon. intro H. destruct (noisy_distances rs orc) as [[[|d ds]|e]|]; inv H; repeat split; reflexivity.
+Qed.
+
+Lemma raise_cap_fields cfg rs rs3 : pasha_raise_cap cfg rs = Ok rs3 ->
+  rs_rungs rs3 = rs_rungs rs /\ rs_running rs3 = rs_running rs /\ rs_thr rs3 = rs_thr rs.
+Proof.
+  unfold pasha_raise_cap. intro H. destruct (rs_idx rs <? length (rs_rungs rs))%nat.
+  - destruct (py_nth (rs_levels rs) (Z.of_nat (S (rs_idx rs)) - 1)); inv H. repeat split; reflexivity.
+  - inv H. repeat split; reflexivity.
+Qed.
+
+(* what the PASHA part of on_task_report does after the superclass call: rs1 -> (epsilon) rs2 -> rs3 *)
+Lemma pasha_after_inv cfg rs1 t r m orc rs3 : pasha_after_report cfg rs1 t r m orc = Ok rs3 ->
+  exists rs2, update_epsilon (set_hist rs1 (add_result (rs_hist rs1) t r m)) orc = Ok rs2 /\
+    rs_rungs rs2 = rs_rungs rs1 /\ rs_running rs2 = rs_running rs1 /\ rs_thr rs2 = rs_thr rs1 /\
+    rs_idx rs2 = rs_idx rs1 /\ rs_cap rs2 = rs_cap rs1 /\
+    ((pasha_increase cfg rs2 (h_eps (rs_hist rs2)) = true /\ pasha_raise_cap cfg rs2 = Ok rs3) \/
+     (pasha_increase cfg rs2 (h_eps (rs_hist rs2)) = false /\ rs3 = rs2)).
+Proof.
+  unfold pasha_after_report. intro H.
+  destruct (update_epsilon (set_hist rs1 (add_result (rs_hist rs1) t r m)) orc) as [rs2|] eqn:Eu; [|discriminate].
+  exists rs2. split; [reflexivity|].
+  apply update_epsilon_fields in Eu as [H1 [H2 [H3 [H4 H5]]]]. simpl in *.
+  repeat (split; [assumption|]).
+  destruct (pasha_increase cfg rs2 (h_eps (rs_hist rs2))); [left|right; inv H]; auto.
+Qed.
+
 Lemma report_shape cfg rs t r m c eps rs' info : rs_on_task_report cfg rs t r m c eps = Ok (rs', info) ->
   exists rs1, promo_on_task_report cfg rs t r m c = Ok (rs1, info) /\
     rs_rungs rs' = rs_rungs rs1 /\ rs_running rs' = rs_running rs1 /\ rs_thr rs' = rs_thr rs1 /\
@@ -612,12 +643,11 @@ Proof.
   unfold rs_on_task_report, pasha_on_task_report. intro H.
   destruct (c_variant cfg) eqn:Ev; try (exists rs'; repeat split; auto; fail).
   destruct (promo_on_task_report cfg rs t r m c) as [[rs1 info1]|]; [|discriminate].
-  destruct (pasha_increase cfg rs1 eps) as [[|]|]; [| |discriminate].
-  - destruct (rs_idx rs1 <? length (rs_rungs rs1))%nat.
-    + destruct (py_nth (rs_levels rs1) (Z.of_nat (S (rs_idx rs1)) - 1)); [|discriminate].
-      inv H. exists rs1. repeat split; auto. congruence.
-    + inv H. exists rs1. repeat split; auto. congruence.
-  - inv H. exists rs'. repeat split; auto.
+  destruct (pasha_after_report cfg rs1 t r m eps) as [rs3|] eqn:Ea; [|discriminate]. inv H.
+  exists rs1. split; [reflexivity|].
+  apply pasha_after_inv in Ea as [rs2 [_ [H1 [H2 [H3 [_ [_ [[_ Hr]|[_ ->]]]]]]]]].
+  - apply raise_cap_fields in Hr as [G1 [G2 G3]]. repeat split; congruence.
+  - repeat split; congruence.
 Qed.
 
 (* ---- invariant A: rung levels are static, rung data stays sorted ------------------- *)
@@ -942,6 +972,43 @@ Proof.
   rewrite <- (map_length r_level), Hl. unfold static_levels. rewrite rev_length, map_length. reflexivity.
 Qed.
 
+(* raising the resource level (only done when the ranking changed) *)
+Lemma raise_cap_spec cfg s rs rs3 : cfg_wf cfg -> rs_wf cfg (static_levels cfg s) rs -> cap_inv cfg rs ->
+  pasha_increase cfg rs (h_eps (rs_hist rs)) = true -> pasha_raise_cap cfg rs = Ok rs3 ->
+  cap_inv cfg rs3 /\ (rs_cap rs <= rs_cap rs3)%Z /\ ((rs_cap rs < rs_cap rs3)%Z <-> (rs_cap rs < c_max_t cfg)%Z).
+Proof.
+  intros Hcfg Hwf1 Hi1 Einc H. unfold pasha_raise_cap in H.
+  destruct (rs_wf_levels _ _ _ Hwf1) as [Hlv1 Hlen1].
+  assert (Hasc : StronglySorted Z.lt (rs_levels rs)).
+  { rewrite Hlv1, map_fst_skipn. apply sorted_lt_skipn. apply Hcfg. }
+  assert (Hbelow : forall x, In x (rs_levels rs) -> (x < c_max_t cfg)%Z).
+  { intros x Hx. rewrite Hlv1, map_fst_skipn in Hx. apply In_skipn in Hx.
+    destruct Hcfg as [_ Hf]. rewrite Forall_forall in Hf. apply Hf. exact Hx. }
+  destruct (rs_idx rs <? length (rs_rungs rs))%nat eqn:Elt.
+  - apply Nat.ltb_lt in Elt.
+    destruct (py_nth (rs_levels rs) (Z.of_nat (S (rs_idx rs)) - 1)) as [cnew|] eqn:Enew; [|discriminate].
+    inv H. unfold cap_inv, rs_levels in *. cbn [rs_rungs rs_idx rs_cap].
+    replace (Z.of_nat (S (rs_idx rs)) - 1)%Z with (Z.of_nat (rs_idx rs)) in * by lia.
+    assert (Hnew := Enew). rewrite py_nth_nonneg in Hnew.
+    assert (Hcnew : (cnew < c_max_t cfg)%Z) by (apply Hbelow; eapply nth_error_In; eauto).
+    destruct Hi1 as [[Hge _]|[[Hrange Hold]|[Hz [Hone _]]]]; [lia| |].
+    + replace (Z.of_nat (rs_idx rs) - 1)%Z with (Z.of_nat (rs_idx rs - 1)) in Hold by lia.
+      rewrite py_nth_nonneg in Hold.
+      assert (rs_cap rs < cnew)%Z by (eapply (asc_nth _ (rs_idx rs - 1) (rs_idx rs)); eauto; lia).
+      split; [|split; [lia|split; lia]].
+      right. left. split; [lia|].
+      replace (Z.of_nat (S (rs_idx rs)) - 1)%Z with (Z.of_nat (rs_idx rs)) by lia. exact Enew.
+    + (* idx = 0 with a single rung: there is only one ranking, no increase *)
+      exfalso. unfold pasha_increase, ranking_of in Einc. rewrite Hz in Einc.
+      unfold py_nth in Einc. rewrite Hone in Einc. simpl in Einc.
+      destruct (rs_rungs rs) as [|x [|y l]]; simpl in *; try discriminate; destruct (r_data x); discriminate.
+  - apply Nat.ltb_ge in Elt. inv H. unfold cap_inv, rs_levels in *. cbn [rs_rungs rs_idx rs_cap].
+    split; [left; split; [exact Elt|reflexivity]|].
+    destruct Hi1 as [[_ Hmax]|[[Hrange Hold]|[Hz [Hone _]]]]; [rewrite Hmax; split; [lia|split; lia]| |lia].
+    replace (Z.of_nat (rs_idx rs) - 1)%Z with (Z.of_nat (rs_idx rs - 1)) in Hold by lia.
+    rewrite py_nth_nonneg in Hold. apply nth_error_In in Hold. apply Hbelow in Hold. split; [lia|split; lia].
+Qed.
+
 Lemma rs_trans_cap cfg s rs rs' : cfg_wf cfg -> rs_trans cfg rs rs' ->
   rs_wf cfg (static_levels cfg s) rs -> cap_inv cfg rs ->
   cap_inv cfg rs' /\ (rs_cap rs <= rs_cap rs')%Z.
@@ -970,39 +1037,14 @@ Proof.
     unfold pasha_on_task_report in H.
     destruct (promo_on_task_report cfg rs t r m c) as [[rs1 info1]|]; [|discriminate].
     destruct (Hpromo _ _ eq_refl) as [Hi1 [Hc1 Hwf1]]. clear Hpromo. rewrite <- Hc1.
-    destruct (pasha_increase cfg rs1 eps) as [[|]|] eqn:Einc; [| |discriminate].
-    2: { inv H. split; [exact Hi1|lia]. }
-    destruct (rs_wf_levels _ _ _ Hwf1) as [Hlv1 Hlen1].
-    assert (Hasc : StronglySorted Z.lt (rs_levels rs1)).
-    { rewrite Hlv1, map_fst_skipn. apply sorted_lt_skipn. apply Hcfg. }
-    assert (Hbelow : forall x, In x (rs_levels rs1) -> (x < c_max_t cfg)%Z).
-    { intros x Hx. rewrite Hlv1, map_fst_skipn in Hx. apply In_skipn in Hx.
-      destruct Hcfg as [_ Hf]. rewrite Forall_forall in Hf. apply Hf. exact Hx. }
-    assert (Hlenlv : length (rs_levels rs1) = length (rs_rungs rs1)).
-    { unfold rs_levels. rewrite rev_length, map_length. reflexivity. }
-    destruct (rs_idx rs1 <? length (rs_rungs rs1))%nat eqn:Elt.
-    + apply Nat.ltb_lt in Elt.
-      destruct (py_nth (rs_levels rs1) (Z.of_nat (S (rs_idx rs1)) - 1)) as [cnew|] eqn:Enew; [|discriminate].
-      inv H. unfold cap_inv, rs_levels in *. cbn [rs_rungs rs_idx rs_cap].
-      replace (Z.of_nat (S (rs_idx rs1)) - 1)%Z with (Z.of_nat (rs_idx rs1)) in * by lia.
-      split.
-      * right. left. split; [lia|]. replace (Z.of_nat (S (rs_idx rs1)) - 1)%Z with (Z.of_nat (rs_idx rs1)) by lia.
-        exact Enew.
-      * rewrite py_nth_nonneg in Enew.
-        destruct Hi1 as [[Hge _]|[[Hrange Hold]|[Hz [Hone _]]]]; [lia| |].
-        -- replace (Z.of_nat (rs_idx rs1) - 1)%Z with (Z.of_nat (rs_idx rs1 - 1)) in Hold by lia.
-           rewrite py_nth_nonneg in Hold.
-           assert (rs_cap rs1 < cnew)%Z; [|lia].
-           eapply (asc_nth _ (rs_idx rs1 - 1) (rs_idx rs1)); eauto. lia.
-        -- (* idx = 0 with a single rung: the rankings raise IndexError *)
-           exfalso. unfold pasha_increase in Einc. rewrite Hz in Einc.
-           unfold py_nth in Einc. rewrite Hone in Einc. simpl in Einc.
-           destruct (rs_rungs rs1) as [|x [|y l]]; simpl in *; try discriminate.
-    + apply Nat.ltb_ge in Elt. inv H. unfold cap_inv, rs_levels in *. cbn [rs_rungs rs_idx rs_cap]. split.
-      * left. split; [exact Elt|reflexivity].
-      * destruct Hi1 as [[_ ->]|[[Hrange Hold]|[Hz [Hone _]]]]; [lia| |lia].
-        replace (Z.of_nat (rs_idx rs1) - 1)%Z with (Z.of_nat (rs_idx rs1 - 1)) in Hold by lia.
-        rewrite py_nth_nonneg in Hold. apply nth_error_In in Hold. apply Hbelow in Hold. lia.
+    destruct (pasha_after_report cfg rs1 t r m eps) as [rs3|] eqn:Ea; [|discriminate]. inv H.
+    apply pasha_after_inv in Ea as [rs2 [_ [H1 [H2 [H3 [H4 [H5 Hcase]]]]]]].
+    assert (Hwf2 : rs_wf cfg (static_levels cfg s) rs2) by (destruct Hwf1; split; congruence).
+    assert (Hi2 : cap_inv cfg rs2).
+    { unfold cap_inv, rs_levels in *. rewrite H1, H4, H5. exact Hi1. }
+    rewrite <- H5.
+    destruct Hcase as [[Hinc Hraise]|[_ ->]]; [|split; [exact Hi2|lia]].
+    destruct (raise_cap_spec cfg s rs2 rs' Hcfg Hwf2 Hi2 Hinc Hraise) as [G1 [G2 _]]. split; assumption.
   - destruct (IH1 Hwf Hinv) as [Hi1 Hle1].
     assert (Hwf1 : rs_wf cfg (static_levels cfg s) b) by (eapply rs_trans_wf; eauto).
     destruct (IH2 Hwf1 Hi1) as [Hi2 Hle2]. split; [exact Hi2|lia].
@@ -1092,20 +1134,51 @@ Proof.
   - simpl. assert (Hne : (r =? ms)%Z = false) by lia. rewrite Hne. repeat split; auto; lia.
 Qed.
 
-Lemma check_top_err top groups e : check_top top groups = Err e -> e = EIndex.
+Lemma crossing_err row1 row2 cond : forall pes opp e, crossing row1 row2 cond pes opp = Err e -> e = EKey.
 Proof.
-  revert groups. induction top as [|x top IH]; intros groups H; simpl in H; [discriminate|].
-  destruct groups as [|g gs]; [inv H; reflexivity|]. destruct (mem_Z (e_id x) g); [eauto|discriminate].
+  induction pes as [|pe rest IH]; intros opp e H; simpl in H; [discriminate|].
+  destruct (lookup pe row1); [|inv H; reflexivity]. destruct (lookup pe row2); [|inv H; reflexivity].
+  match type of H with (if ?b then _ else _) = _ => destruct b end; [discriminate|eauto].
 Qed.
 
-Lemma pasha_increase_err cfg rs eps e : pasha_increase cfg rs eps = Err e -> e = EIndex.
+Lemma eps_pairs_err h epoch : forall ps seen acc e, eps_pairs h epoch ps seen acc = Err e -> e = EKey.
 Proof.
-  unfold pasha_increase. intro H.
-  destruct (py_nth (rs_rungs rs) (- Z.of_nat (rs_idx rs))) as [top|]; [|inv H; reflexivity].
-  destruct (py_nth (rs_rungs rs) (- Z.of_nat (rs_idx rs) + 1)) as [prev|]; [|inv H; reflexivity].
-  destruct (r_data top); [discriminate|]. destruct (r_data prev); [discriminate|].
-  match type of H with context [check_top ?a ?b] => destruct (check_top a b) eqn:E end; [discriminate|].
-  inv H. eapply check_top_err; eauto.
+  induction ps as [|[c1 c2] rest IH]; intros seen acc e H; simpl in H; [discriminate|].
+  destruct (mem_pair (c1, c2) seen); [eauto|].
+  destruct (lookup c1 (h_results h)) as [row1|]; [|inv H; reflexivity].
+  destruct (lookup c2 (h_results h)) as [row2|]; [|inv H; reflexivity].
+  destruct (lookup epoch row1) as [p1|]; [|inv H; reflexivity].
+  destruct (lookup epoch row2) as [p2|]; [|inv H; reflexivity].
+  destruct (crossing row1 row2 (Qltb p2 p1) (zrange_down (epoch - 1) 0) false) eqn:Ec.
+  - eauto.
+  - inv H. eapply crossing_err; eauto.
+Qed.
+
+Lemma eps_epochs_err h orders : forall eps seen acc e, eps_epochs h orders eps seen acc = Err e -> e = EKey.
+Proof.
+  induction eps as [|ep rest IH]; intros seen acc e H; simpl in H; [discriminate|].
+  destruct (lookup ep (h_epochs h)) as [trials|]; [|inv H; reflexivity].
+  destruct (1 <? length trials)%nat; [|eauto].
+  match type of H with context [eps_pairs h ep ?ps seen acc] => destruct (eps_pairs h ep ps seen acc) as [[seen' acc']|e'] eqn:Ep end.
+  - eauto.
+  - inv H. eapply eps_pairs_err; eauto.
+Qed.
+
+Lemma pasha_after_err cfg rs1 t r m orc e : pasha_after_report cfg rs1 t r m orc = Err e -> e = EKey \/ e = EIndex.
+Proof.
+  unfold pasha_after_report. intro H.
+  destruct (update_epsilon (set_hist rs1 (add_result (rs_hist rs1) t r m)) orc) as [rs2|e0] eqn:Eu.
+  - destruct (pasha_increase cfg rs2 (h_eps (rs_hist rs2))); [|discriminate].
+    unfold pasha_raise_cap in H. right.
+    destruct (rs_idx rs2 <? length (rs_rungs rs2))%nat; [|discriminate].
+    destruct (py_nth (rs_levels rs2) (Z.of_nat (S (rs_idx rs2)) - 1)); [discriminate|]. inv H. reflexivity.
+  - inv H. left. unfold update_epsilon in Eu.
+    destruct (noisy_distances (set_hist rs1 (add_result (rs_hist rs1) t r m)) orc) as [[[|d ds]|e0]|] eqn:En;
+      try discriminate. inv Eu.
+    unfold noisy_distances in En.
+    match type of En with context [match ?X with Some _ => _ | None => _ end] => destruct X; [|discriminate] end.
+    match type of En with context [match ?X with Some _ => _ | None => _ end] => destruct X; [|discriminate] end.
+    inv En. eapply eps_epochs_err; eauto.
 Qed.
 
 Lemma report_result_cases cfg rs t r m c eps ms rf : lookup t (rs_running rs) = Some (ms, rf) ->
@@ -1119,12 +1192,8 @@ Proof.
   unfold pasha_on_task_report.
   destruct (promo_on_task_report cfg rs t r m c) as [[rs1 info]|e]; [|exact Hp].
   assert (Hle : (r <= ms)%Z) by apply Hp.
-  destruct (pasha_increase cfg rs1 eps) as [[|]|e] eqn:Ei.
-  - destruct (rs_idx rs1 <? length (rs_rungs rs1))%nat; [|exact Hp].
-    destruct (py_nth (rs_levels rs1) (Z.of_nat (S (rs_idx rs1)) - 1)); [exact Hp|].
-    split; [discriminate|lia].
-  - exact Hp.
-  - apply pasha_increase_err in Ei. subst e. split; [discriminate|lia].
+  destruct (pasha_after_report cfg rs1 t r m eps) as [rs3|e] eqn:Ea; [exact Hp|].
+  apply pasha_after_err in Ea as [->| ->]; (split; [discriminate|lia]).
 Qed.
 
 (* running[t] = (milestone, resume_from) always has resume_from < milestone *)
@@ -1444,7 +1513,7 @@ Proof.
     + inv H. left. repeat split; reflexivity.
 Qed.
 
-Definition report_outcome (cfg : config) (rs : rsys) (t r : Z) (m total eps : Q) : result (rsys * report_info) :=
+Definition report_outcome (cfg : config) (rs : rsys) (t r : Z) (m total : Q) (eps : oracle) : result (rsys * report_info) :=
   if (r <? c_max_t cfg)%Z then rs_on_task_report cfg rs t r m total eps else Ok (rs, mkInfo false true false).
 Definition total_cost (cfg : config) (st : state) (t : Z) (c : Q) : Q :=
   if c_cost cfg then c + match lookup t (st_off st) with Some o => o | None => 0 end else c.
@@ -1568,7 +1637,7 @@ Lemma scan_id cfg cap b : forall rungs j0 next thr thr' j t pos lvl nxt,
 Proof.
   induction rungs as [|r rest IH]; intros j0 next thr thr' j t pos lvl nxt H; simpl in H; [discriminate|].
   destruct (r_level r <? cap)%Z.
-  - destruct (find_promotable cfg thr r b) as [thr1 [[t1 p1]|]] eqn:Ef.
+  - destruct (find_promotable cfg thr r (bres_at b (r_level r))) as [thr1 [[t1 p1]|]] eqn:Ef.
     + inv H. apply find_promotable_id in Ef as [e [Hn [Hid Hp]]].
       exists 0%nat, r, e. split; [lia|]. repeat split; auto.
     + apply IH in H as [k [r1 [e [Hj [Hn Hrest]]]]]. exists (S k), r1, e. split; [lia|]. split; [exact Hn|exact Hrest].
@@ -1925,10 +1994,8 @@ Proof.
   unfold rs_on_task_report, pasha_on_task_report. intro H.
   destruct (c_variant cfg); try (eapply promo_err_kinds; eauto; fail).
   destruct (promo_on_task_report cfg rs t r m c) as [[rs1 info]|e1] eqn:Ep.
-  - destruct (pasha_increase cfg rs1 eps) as [[|]|e2] eqn:Ei.
-    + repeat (break_in H; try discriminate); inv H; discriminate.
-    + discriminate.
-    + apply pasha_increase_err in Ei. inv H. discriminate.
+  - destruct (pasha_after_report cfg rs1 t r m eps) as [rs3|e2] eqn:Ea; [discriminate|]. inv H.
+    apply pasha_after_err in Ea as [->| ->]; discriminate.
   - inv H. eapply promo_err_kinds; eauto.
 Qed.
 
@@ -2576,4 +2643,176 @@ Proof.
       (destruct (lookup t (st_active st)) as [ti|]; [|discriminate]); exists ti; (split; [reflexivity|]);
       destruct (ti_dec ti); try discriminate; reflexivity.
   - destruct (step cfg st ev) as [[st' o]|]; auto.
+Qed.
+
+(* ---- PASHA: current_max_t increases exactly when the soft ranking of the top two rungs differs ------- *)
+(* declarative reading of the groups of _evaluate_soft_ranking: trial t is in the group of the entry at
+   position i of the (best first) previous ranking P iff it is that entry, or an entry further down
+   reachable without meeting an entry worse than P[i] by more than eps, or an entry further up reachable
+   without meeting an entry better than P[i] by more than eps *)
+(* t occurs in l before the first entry that is [far] *)
+Definition close_run (far : Q -> bool) (l : list entry) (t : Z) : Prop :=
+  exists j y, nth_error l j = Some y /\ e_id y = t /\
+    forall k z, (k <= j)%nat -> nth_error l k = Some z -> far (e_metric z) = false.
+Definition in_group (md : mode) (eps : Q) (P : list entry) (i : nat) (t : Z) : Prop :=
+  exists x, nth_error P i = Some x /\
+    (e_id x = t \/
+     close_run (far_worse md eps (e_metric x)) (skipn (S i) P) t \/        (* walking down from i+1 *)
+     close_run (far_better md eps (e_metric x)) (rev (firstn i P)) t).     (* walking up from i-1 *)
+
+Lemma take_close_spec far t : forall l,
+  In t (take_close far l) <-> close_run far l t.
+Proof.
+  unfold close_run. induction l as [|a l IH]; simpl.
+  - split; [intros []|]. intros [j [y [H _]]]. destruct j; discriminate.
+  - destruct (far (e_metric a)) eqn:Ea; simpl.
+    + split; [intros []|]. intros [j [y [Hn [_ Hall]]]].
+      specialize (Hall 0%nat a (Nat.le_0_l j) eq_refl). congruence.
+    + rewrite IH. split.
+      * intros [<-|[j [y [Hn [Hid Hall]]]]].
+        -- exists 0%nat, a. split; [reflexivity|]. split; [reflexivity|].
+           intros k z Hk Hz. destruct k; [|inversion Hk]. simpl in Hz. inv Hz. exact Ea.
+        -- exists (S j), y. split; [exact Hn|]. split; [exact Hid|].
+           intros [|k] z Hk Hz; simpl in Hz; [inv Hz; exact Ea|]. apply (Hall k z); [lia|exact Hz].
+      * intros [[|j] [y [Hn [Hid Hall]]]]; simpl in Hn.
+        -- inv Hn. left. reflexivity.
+        -- right. exists j, y. split; [exact Hn|]. split; [exact Hid|].
+           intros k z Hk Hz. apply (Hall (S k) z); [lia|exact Hz].
+Qed.
+
+(* the groups computed by the loop, with the entries already passed in [before_rev] *)
+Lemma soft_groups_nth md eps : forall l before_rev i x,
+  nth_error l i = Some x ->
+  exists g, nth_error (soft_groups md eps before_rev l) i = Some g /\
+    forall t, mem_Z t g = true <->
+      (e_id x = t \/ In t (take_close (far_worse md eps (e_metric x)) (skipn (S i) l)) \/
+       In t (take_close (far_better md eps (e_metric x)) (rev (firstn i l) ++ before_rev))).
+Proof.
+  induction l as [|a l IH]; intros before_rev [|i] x Hn; simpl in Hn; try discriminate.
+  - inv Hn. simpl. eexists. split; [reflexivity|]. intro t.
+    assert (Hmem : forall (l0 : list Z), mem_Z t l0 = true <-> In t l0).
+    { induction l0 as [|z l0 IH0]; simpl; [split; [discriminate|intros []]|].
+      rewrite orb_true_iff, IH0. split; (intros [H|H]; [left; lia|right; exact H]). }
+    rewrite Hmem. simpl. rewrite in_app_iff. tauto.
+  - destruct (IH (a :: before_rev) i x Hn) as [g [Hg Hspec]]. exists g. split; [exact Hg|].
+    intro t. rewrite Hspec. simpl. rewrite <- app_assoc. simpl. tauto.
+Qed.
+
+Lemma soft_groups_length md eps : forall l before_rev, length (soft_groups md eps before_rev l) = length l.
+Proof. induction l as [|a l IH]; intros b; simpl; auto. Qed.
+
+(* the soft ranking is kept: the trial at every position of the top ranking belongs to the group of the
+   entry at the same position of the previous ranking (restricted to trials of the top rung) *)
+Definition soft_consistent (md : mode) (eps : Q) (top P : list entry) : Prop :=
+  forall i x, nth_error top i = Some x -> in_group md eps P i (e_id x).
+
+Lemma check_top_spec : forall top groups,
+  check_top top groups = true <->
+  forall i x, nth_error top i = Some x -> exists g, nth_error groups i = Some g /\ mem_Z (e_id x) g = true.
+Proof.
+  induction top as [|a top IH]; intros groups; simpl.
+  - split; [|reflexivity]. intros _ [|i] x H; discriminate.
+  - destruct groups as [|g gs].
+    + split; [discriminate|]. intro H. destruct (H 0%nat a eq_refl) as [g [Hg _]]. discriminate.
+    + destruct (mem_Z (e_id a) g) eqn:Em.
+      * rewrite IH. split.
+        -- intros H [|i] x Hx; simpl in *; [inv Hx; eauto|eauto].
+        -- intros H i x Hx. apply (H (S i) x). exact Hx.
+      * split; [discriminate|]. intro H. destruct (H 0%nat a eq_refl) as [g' [Hg Hm]]. simpl in Hg. inv Hg. congruence.
+Qed.
+
+Lemma soft_check_spec md eps top P :
+  check_top top (soft_groups md eps [] P) = true <-> soft_consistent md eps top P.
+Proof.
+  rewrite check_top_spec. unfold soft_consistent, in_group. split; intros H i x Hx.
+  - destruct (H i x Hx) as [g [Hg Hm]].
+    destruct (nth_error P i) as [p|] eqn:Ep.
+    + destruct (soft_groups_nth md eps P [] i p Ep) as [g' [Hg' Hspec]].
+      assert (g' = g) by congruence. subst g'. exists p. split; [reflexivity|].
+      apply Hspec in Hm. rewrite app_nil_r in Hm. rewrite !take_close_spec in Hm. exact Hm.
+    + exfalso. apply nth_error_None in Ep. rewrite <- (soft_groups_length md eps P []) in Ep.
+      apply nth_error_None in Ep. congruence.
+  - destruct (H i x Hx) as [p [Ep Hin]].
+    destruct (soft_groups_nth md eps P [] i p Ep) as [g [Hg Hspec]]. exists g. split; [exact Hg|].
+    apply Hspec. rewrite app_nil_r. rewrite !take_close_spec. exact Hin.
+Qed.
+
+(* the ranking of the top two rungs changed *)
+Definition ranking_changed (cfg : config) (rs : rsys) (eps : Q) : Prop :=
+  exists top prev, ranking_of rs (- Z.of_nat (rs_idx rs)) = Some top /\
+    ranking_of rs (- Z.of_nat (rs_idx rs) + 1) = Some prev /\
+    let P := filter (fun e => in_data (e_id e) (r_data top)) (r_data prev) in
+    ~ soft_consistent (c_mode cfg) (if (length P <? 2)%nat then 0 else eps) (r_data top) P.
+
+Lemma pasha_increase_spec cfg rs eps : pasha_increase cfg rs eps = true <-> ranking_changed cfg rs eps.
+Proof.
+  unfold pasha_increase, ranking_changed.
+  destruct (ranking_of rs (- Z.of_nat (rs_idx rs))) as [top|];
+    [|split; [discriminate|intros [t [p [H _]]]; discriminate]].
+  destruct (ranking_of rs (- Z.of_nat (rs_idx rs) + 1)) as [prev|];
+    [|split; [discriminate|intros [t [p [_ [H _]]]]; discriminate]].
+  rewrite negb_true_iff. split.
+  - intro H. exists top, prev. split; [reflexivity|]. split; [reflexivity|]. simpl.
+    rewrite <- soft_check_spec. congruence.
+  - intros [t [p [Ht [Hp Hn]]]]. inv Ht. inv Hp. simpl in Hn. rewrite <- soft_check_spec in Hn.
+    destruct (check_top _ _); [exfalso; apply Hn; reflexivity|reflexivity].
+Qed.
+
+Lemma pasha_cap_increase_iff cfg s rs t r m c orc rs' info :
+  cfg_wf cfg -> c_variant cfg = VPasha -> rs_wf cfg (static_levels cfg s) rs -> cap_inv cfg rs ->
+  rs_on_task_report cfg rs t r m c orc = Ok (rs', info) ->
+  exists rs1 rs2, promo_on_task_report cfg rs t r m c = Ok (rs1, info) /\
+    update_epsilon (set_hist rs1 (add_result (rs_hist rs1) t r m)) orc = Ok rs2 /\
+    rs_rungs rs2 = rs_rungs rs1 /\
+    ((rs_cap rs < rs_cap rs')%Z <->
+       ranking_changed cfg rs2 (h_eps (rs_hist rs2)) /\ (rs_cap rs < c_max_t cfg)%Z) /\
+    (~ ranking_changed cfg rs2 (h_eps (rs_hist rs2)) -> rs' = rs2).
+Proof.
+  intros Hcfg Hv Hwf Hinv H. unfold rs_on_task_report in H. rewrite Hv in H. unfold pasha_on_task_report in H.
+  destruct (promo_on_task_report cfg rs t r m c) as [[rs1 info1]|] eqn:Ep; [|discriminate].
+  assert (Hwf1 := promo_report_wf _ _ _ _ _ _ _ _ _ Ep Hwf).
+  assert (Hshape := Ep). apply promo_report_shape in Hshape as [_ [_ [Hi [Hc _]]]].
+  destruct (rs_wf_levels _ _ _ Hwf) as [Hlv Hlen]. destruct (rs_wf_levels _ _ _ Hwf1) as [Hlv1 Hlen1].
+  assert (Hi1 : cap_inv cfg rs1).
+  { unfold cap_inv in *. rewrite Hi, Hc, Hlv1, Hlen1. rewrite Hlv, Hlen in Hinv. exact Hinv. }
+  destruct (pasha_after_report cfg rs1 t r m orc) as [rs3|] eqn:Ea; [|discriminate]. inv H.
+  apply pasha_after_inv in Ea as [rs2 [Hu [H1 [H2 [H3 [H4 [H5 Hcase]]]]]]].
+  assert (Hwf2 : rs_wf cfg (static_levels cfg s) rs2) by (destruct Hwf1; split; congruence).
+  assert (Hi2 : cap_inv cfg rs2).
+  { unfold cap_inv, rs_levels in *. rewrite H1, H4, H5. exact Hi1. }
+  exists rs1, rs2. split; [reflexivity|]. split; [exact Hu|]. split; [exact H1|].
+  rewrite <- Hc, <- H5.
+  pose proof (pasha_increase_spec cfg rs2 (h_eps (rs_hist rs2))) as Hspec.
+  destruct Hcase as [[Hinc Hraise]|[Hinc ->]].
+  - destruct (raise_cap_spec cfg s rs2 rs' Hcfg Hwf2 Hi2 Hinc Hraise) as [_ [_ Hiff]].
+    assert (Hch : ranking_changed cfg rs2 (h_eps (rs_hist rs2))) by (apply Hspec; exact Hinc).
+    split; [tauto|]. intro Hn. contradiction.
+  - split; [|reflexivity]. split; [lia|]. intros [Hch _]. apply Hspec in Hch. congruence.
+Qed.
+
+(* for every reachable state *)
+Lemma pasha_cap_increase_reach cfg evs st os s rs t r m c orc rs' info :
+  cfg_wf cfg -> c_variant cfg = VPasha -> run cfg evs = Ok (st, os) -> nth_error (st_sys st) s = Some rs ->
+  rs_on_task_report cfg rs t r m c orc = Ok (rs', info) ->
+  exists rs1 rs2, promo_on_task_report cfg rs t r m c = Ok (rs1, info) /\
+    update_epsilon (set_hist rs1 (add_result (rs_hist rs1) t r m)) orc = Ok rs2 /\
+    rs_rungs rs2 = rs_rungs rs1 /\
+    ((rs_cap rs < rs_cap rs')%Z <->
+       ranking_changed cfg rs2 (h_eps (rs_hist rs2)) /\ (rs_cap rs < c_max_t cfg)%Z) /\
+    (~ ranking_changed cfg rs2 (h_eps (rs_hist rs2)) -> rs' = rs2).
+Proof.
+  intros Hcfg Hv Hrun Hn H. eapply pasha_cap_increase_iff; eauto.
+  - eapply reach_wf; eauto.
+  - eapply reach_cap_inv; eauto.
+Qed.
+
+(* epsilon only ever becomes the percentile oracle's value, and only when some pair of learning curves
+   crossed and crossed back ([noisy_distances] non-empty) *)
+Lemma update_epsilon_spec rs orc rs2 : update_epsilon rs orc = Ok rs2 ->
+  (rs2 = rs /\ (noisy_distances rs orc = None \/ noisy_distances rs orc = Some (Ok []))) \/
+  (exists d ds, noisy_distances rs orc = Some (Ok (d :: ds)) /\ h_eps (rs_hist rs2) = o_pct orc /\
+     h_results (rs_hist rs2) = h_results (rs_hist rs) /\ h_epochs (rs_hist rs2) = h_epochs (rs_hist rs)).
+Proof.
+  unfold update_epsilon. intro H. destruct (noisy_distances rs orc) as [[[|d ds]|e]|]; inv H; auto.
+  right. exists d, ds. auto.
 Qed.
